@@ -91,7 +91,6 @@ func vfc15RaceRun(c *vfc15RaceCase, r *vfcore.Rec) *vfcore.Failure {
 		}
 	}
 	r.Count("race-iterations", int64(c.Iterations))
-	r.NonTrivial("")
 	if bad > 0 {
 		f := vfcore.Failf("spurious-broker-failure", "%d of the first %d concurrent RefreshMetadata() calls failed although the only seed is healthy (dial or read failures seen by the client: %d); first: %s",
 			bad, done*c.Goroutines, netFailures, first)
